@@ -89,6 +89,12 @@ def decode_find(line):
     return int(p[0]), fw.unhex(p[1]), fw.unhex(p[2]) if len(p) > 2 else b""
 
 
+def diagnostics(line):
+    """the number of 'Error...' lines the run wrote to standard error (None for a run that did not end normally)"""
+    p = line.split(" ")
+    return int(p[3]) if len(p) > 3 and p[0].lstrip("-").isdigit() else None
+
+
 class Forest:
     """a scratch directory holding several generated trees"""
 
@@ -131,6 +137,7 @@ def run_cases(ctx, forest, cases, bucket_fn):
             lines, ufs = model_lines(c, cwd)
         except fstree.TooBig:
             lines, ufs = None, None
+            ctx.count((c["treekey"], "too-big", tuple(find_args(c))), False, ["skipped-unfolding-over-600-nodes"])
         idx.append((len(ml), len(lines) if lines else 0))
         ufs_all.append(ufs)
         if lines:
@@ -155,7 +162,9 @@ def run_cases(ctx, forest, cases, bucket_fn):
         exp_code = 1 if exp_err else 0
         nontrivial, buckets = bucket_fn(c, events, ufs)
         ctx.count((c["treekey"], tuple(find_args(c))), nontrivial, buckets)
-        ok = (code == exp_code) and out == exp_out and (bool(err) == bool(exp_err))
+        # one diagnostic per entry that cannot be read
+        ndiag = diagnostics(i)
+        ok = (code == exp_code) and out == exp_out and ndiag == exp_err
         if not ok:
             bad.append((c, (code, out, err), (exp_code, exp_out, exp_err)))
     return bad
